@@ -92,7 +92,7 @@ def check(ck: Checker) -> None:
     _lints(ck, "C05.aliasing", "hashfile.state", "hashfile.checkout")
     ck.decided = [
         "C05.owner: every filesystem-destructive call reachable from hashfile.checkout.checkout inside its module is enumerated",
-        "C05.guard: each such call is unreachable once the edges {force true, OLD entry in_cache true, prompt(msg) true} are cut (operands traced to checkout()'s parameters / <change>.old.in_cache through all call sites)",
+        "C05.guard: each such call is unreachable once the edges {force true, OLD entry in_cache true, prompt(msg) true} are cut (operands traced to checkout()'s parameters / <change>.old.in_cache through all call sites); vanished entries are removed files-first, so a directory's (recursive) removal never precedes the guarded removal of the files below it",
         "C05.overwrite: every workspace write (link functor / generic.transfer) is dominated by the guarded removal of the same path or lies across '<change>.old.oid is falsy'",
         "C05.incache: TreeEntry.in_cache is `cache_meta is not None`, the OLD entry's cache_meta is the integrity-checked lookup of the OLD oid, and the lookup returns non-None only from cache.check(oid)",
         "C05.links: State.get_unused_links appends only keys of the link table, across path-not-in-used, fs.exists and record==(inode, mtime) edges; remove_links removes exactly the paths it was given",
@@ -181,6 +181,9 @@ def check(ck: Checker) -> None:
     _check_linkrecord(ck, slice_)
     _check_links(ck)
     _check_dirtoken(ck)
+    from . import round5 as _r5
+
+    _r5.deleted_files_before_dirs(ck, "C05.guard")
 
 
 def _check_overwrite(ck, fn, g, n, c, dest, guarded_removers, depth):
